@@ -71,6 +71,9 @@ class ExprMixin(EngineBase):
         raise Unsupported(f"cannot use global {name}", node)
 
     def external_value(self, dotted: str, node: Any = None) -> Any:
+        ov = getattr(self.reg, "external_overrides", {}).get(dotted)
+        if ov is not None:
+            return ov
         if dotted.startswith("jelly."):
             nm = dotted[len("jelly."):]
             if nm in self.proto["constants"]:
